@@ -176,7 +176,8 @@ def scenario_projects() -> List[Dict[str, Any]]:
         [], oracle_only=True)
     # the only root is hidden: nothing is documented, the summary pages are still written (and link to index.html)
     add("hidden-single-root", [U("solo", "'''s'''\nclass A:\n    '''a'''\n", True), U("solo.m", "x = 1\n")], ["HIDDEN:solo"])
-    # a module named __main__ is PRIVATE whatever the rules say (Module.privacyClass): a rule that tries to hide it
+    # a module named __main__ is PRIVATE by default; since c8d85b0 a --privacy rule overrides that default like any other:
+    # a rule that hides it really hides it (before, Module.privacyClass answered PRIVATE whatever the rules said)
     main_pkg = [U("tool", "'''tool, see L{tool.__main__.run}'''\n", True),
                 U("tool.__main__", "'''entry point'''\ndef run(argv):\n    '''run it'''\nclass Cmd:\n    '''c'''\n"),
                 U("tool.lib", "from tool.__main__ import Cmd\nclass Sub(Cmd):\n    '''see L{tool.__main__}'''\n")]
@@ -189,6 +190,41 @@ def scenario_projects() -> List[Dict[str, Any]]:
                 "class User(__Meta__):\n    '''see L{__Meta__} and L{__Meta__.__call__} and L{__version__}'''\n    def __call__(self):\n        '''mine'''\n", True),
         U("dn.__private__", "'''a dunder module'''\ndef helper():\n    '''h'''\n"),
     ], ["HIDDEN:dn.__Meta__", "PRIVATE:**.__call__", "HIDDEN:*.__version__", "HIDDEN:dn.__private__"])
+    # --- shapes the seeded changes under /verif/seeded/C11*, C12* need (deterministic, whatever the seed)
+    # C11-1 / C11-r2-2: exactly one root package whose name is reused by a nested module and a nested class, the root
+    # documenting members of its own (links to index.html#member)
+    add("root-name-reused", [
+        U("tasks", "'''root, see L{run} and L{tasks.tasks.helper}'''\ndef run():\n    '''r'''\nLIMIT = 1\n'''l'''\n", True),
+        U("tasks.tasks", "'''inner module of the same name, see L{tasks.run}'''\ndef helper():\n    '''h'''\n"),
+        U("tasks.mod", "from tasks import run\nclass tasks:\n    '''a class of the same name, see L{run}'''\n    def m(self):\n        '''see L{tasks.LIMIT}'''\n"),
+    ], [])
+    # C11-2: a first sentence that links a member documented on the parent's page, shown on other pages
+    add("summary-links-sibling", [
+        U("sl", "'''m'''\ndef util():\n    '''u'''\nclass K:\n    '''uses L{util} of its module'''\n    def a(self):\n        '''see L{b}'''\n"
+                "    def b(self):\n        '''b'''\nclass Sub(K):\n    '''sub'''\n    def b(self):\n        '''mine'''\n"),
+    ], [])
+    # C11-3 / C12-3: a hidden container with two and three levels below it, referenced from outside
+    add("hidden-container-deep", [
+        U("hp", "'''root'''\n", True),
+        U("hp.tests", "'''hidden package'''\n", True),
+        U("hp.tests.test_api", "class ApiTests:\n    '''t'''\n    def test_one(self):\n        '''one'''\n    class Inner:\n        '''i'''\n        def deep(self):\n            '''d'''\n"),
+        U("hp.api", "from hp.tests.test_api import ApiTests\nclass Base:\n    '''b'''\nclass Shown(ApiTests, Base):\n    '''see L{hp.tests.test_api.ApiTests.Inner.deep}'''\n"),
+    ], ["HIDDEN:hp.tests"])
+    # C12-r2-1: a member hidden on its own inside a visible class, inherited (not overridden) by a visible subclass
+    add("hidden-member-inherited", [
+        U("shop", "class Base:\n    '''b'''\n    def zz_secret_a(self):\n        '''s'''\n    def open(self):\n        '''o'''\n    zz_secret_v = 1\n    '''v'''\n"
+                  "class Child(Base):\n    '''c'''\n    def own(self):\n        '''own'''\n"),
+    ], ["HIDDEN:shop.Base.zz_secret_*"])
+    # C12-r2-2: two patterns matching the same object with different levels, the more restrictive one later (and earlier)
+    acme = [U("acme", "'''a'''\n", True), U("acme._vendored", "class V:\n    '''v'''\n    def m(self):\n        '''m'''\n"),
+            U("acme.compat", "from acme._vendored import V\nclass C(V):\n    '''see L{acme._vendored.V}'''\n")]
+    add("overlapping-patterns", acme, ["PUBLIC:**", "HIDDEN:acme._vendored**", "PRIVATE:acme.compat*"])
+    add("overlapping-patterns-general-last", acme, ["HIDDEN:acme._vendored**", "PRIVATE:acme.compat*", "PUBLIC:**"])
+    # C12-r2-3 / C12-1: a PRIVATE class whose only subclass is hidden (class index marker); a private class's own page
+    add("private-class-hidden-subclass", [
+        U("pc", "class _Priv:\n    '''p'''\n    def m(self):\n        '''m'''\nclass Gone(_Priv):\n    '''g'''\n"
+                "class Marked:\n    '''by rule'''\nclass Kid(Marked):\n    '''k'''\n"),
+    ], ["HIDDEN:pc.Gone", "PRIVATE:pc.Marked"], opts={"expand": 2})
     # (a project whose only root is hidden has no visible object at all: lunr then divides by zero and the run aborts
     #  before anything is written - nothing to crawl; counted as `run-crash` when a random rule list does it)
     add("hidden-one-of-two-roots", [U("r1", "'''one see L{r2.B}'''\nclass A:\n    '''a'''\n"), U("r2", "'''two'''\nfrom r1 import A\nclass B(A):\n    '''see L{r1}'''\n")],
@@ -258,7 +294,7 @@ def random_project(rng) -> List[Unit]:
         if tops and rng.random() < 0.5:
             src = src.replace("(a, b=1):", "(a, b=%s):" % rng.choice(tops))
         out.append(Unit(u.qname, u.is_package, src, u.parent))
-    # sometimes a package gets a __main__ module (PRIVATE whatever the rules say; see random_privacy)
+    # sometimes a package gets a __main__ module (private by default, rules apply; see random_privacy)
     pkgs = [u.qname for u in out if u.is_package]
     if pkgs and rng.random() < 0.15:
         pk = rng.choice(pkgs)
@@ -386,8 +422,33 @@ def real_package_cases(rng) -> List[Dict[str, Any]]:
     return cases
 
 
-def make_cases(rng, n_random: int, rule_lists: int = 1, scenarios: bool = True) -> List[Dict[str, Any]]:
+def corpus_cases() -> List[Dict[str, Any]]:
+    """the input of every `fixed` / `open` finding of C11 and C12 in known_findings.json (as recorded when it was found),
+    one case per distinct project x rules: they run first on every run, whatever the seed"""
+    from .core import load_known
+    seen = set()
     cases: List[Dict[str, Any]] = []
+    known = load_known()
+    for prop in ("C11", "C12"):
+        for e in known.get(prop, []):
+            inp = e.get("input")
+            if not isinstance(inp, dict) or "units" not in inp:
+                continue
+            key = json.dumps([inp.get("units"), inp.get("privacy"), inp.get("cfg_privacy")], sort_keys=True)
+            if key in seen:
+                continue
+            seen.add(key)
+            c = case_from_payload(inp)
+            c["name"] = "corpus:%s:%s" % (prop, e["signature"])
+            o = {"theme": "classic", "expand": 2, "toc": 6, "nosidebar": False}
+            o.update(c.get("opts") or {})
+            c["opts"] = o
+            cases.append(c)
+    return cases
+
+
+def make_cases(rng, n_random: int, rule_lists: int = 1, scenarios: bool = True) -> List[Dict[str, Any]]:
+    cases: List[Dict[str, Any]] = corpus_cases() if scenarios else []
     for sc in (scenario_projects() if scenarios else []):
         opts = {"theme": rng.choice(THEMES), "expand": rng.choice([1, 2, 3]), "toc": 6, "nosidebar": False}
         opts.update(sc.get("opts", {}))
@@ -862,6 +923,15 @@ def crawl_page(fn: str, text: str) -> Dict[str, Any]:
                         marked = _has_private(li)
                         entries.append(("nameindex", a.get("href"), marked, ""))
                         links.append(("nameindex", a.get("href"), a.get("title") or _text(a)))
+            # letter headings (<a name=X>, <h2>X</h2>) and the links to the other letters below each
+            for h2 in soup.find_all("h2"):
+                letter = _text(h2)
+                prev = h2.find_previous_sibling("a")
+                if prev is not None and prev.get("name") == letter:
+                    entries.append(("letter", letter, False, ""))
+                    p = h2.find_next_sibling("p", class_="letterlinks")
+                    for a in (p.find_all("a") if p is not None else []):
+                        entries.append(("letterlink", letter, False, a.get("href") or ""))
         elif stem == "undoccedSummary" and tree is not None:
             for a in A(tree):
                 links.append(("undoc", a.get("href"), a.get("title") or _text(a)))
@@ -1118,7 +1188,8 @@ def impl_sections(res: Dict[str, Any]) -> Dict[str, str]:
     """the crawl, in the canonical per-producer form of the model's answer"""
     cr = res["crawl"]
     S: Dict[str, List[str]] = {k: [] for k in (
-        "files", "anchors", "classanchors", "classtexts", "roottexts", "search", "inventory", "inhierarchy",
+        "files", "anchors", "classanchors", "classtexts", "roottexts", "letters", "letterlinks", "search", "inventory",
+        "inhierarchy",
         "table", "inittable", "basetable", "detail", "sidebar-title", "sidebar", "sidebar-inherited", "heading", "classsig",
         "knownsub", "overrides", "overriddenin", "basename", "basevia", "xref", "extra", "sumcopy",
         "modindex", "modindex-sum", "classindex", "classindex-sum", "nameindex", "undoc", "indexroots", "alldocs",
@@ -1152,6 +1223,10 @@ def impl_sections(res: Dict[str, Any]) -> Dict[str, str]:
                 S["classanchors"].append(enc(ref))
             elif kind == "classindex-text":
                 S["classtexts"].append(enc(ref) + ">" + m)
+            elif kind == "letter":
+                S["letters"].append(enc(ref))
+            elif kind == "letterlink":
+                S["letterlinks"].append(enc(ref) + ">" + enc(unquote(extra[1:]) if extra.startswith("#") else extra))
             elif kind == "roottext":
                 S["roottexts"].append(page + ">" + enc(ref) + ">" + (m if extra == "m" else "-"))
             elif kind == "alldocs":
@@ -1433,6 +1508,8 @@ def crawl_and_compare(ctx, n_random: int, rule_lists: int, extra_cases: Sequence
         r["model"] = secs
         if "wf=1" not in secs["_head"]:
             ctx.count("model-wf-false")
+        if "hwf=1" not in secs["_head"]:
+            ctx.count("model-hierwf-false")
         ms = model_sections_for_compare(secs)
         im = impl_sections(r)
         ms["dead-set"] = _canon(_model_dead_set(secs.get("dead", "")))
